@@ -614,6 +614,72 @@ def refit_oracle(ctx, cls, kw, descs, seed0, report=True):
     return found
 
 
+K_WSEL = 'Univariate.fit:refit-keeps-first-selected-family'
+
+
+def wrapper_configs():
+    """the selecting wrapper: default candidates, explicit candidate lists, filters; `cost` = how many histories
+    the quick tier affords (a default-candidate fit tries all eight families)."""
+    U, _ = _imports()
+    PT, BT = U.ParametricType, U.BoundedType
+    return [('Univariate(candidates=[Gaussian, Uniform])', lambda: U.Univariate(candidates=[U.GaussianUnivariate, U.UniformUnivariate]), 99),
+            ('Univariate(candidates=[Gaussian, Uniform, Gamma])',
+             lambda: U.Univariate(candidates=[U.GaussianUnivariate, U.UniformUnivariate, U.GammaUnivariate]), 99),
+            ('Univariate(candidates=[Uniform, Gaussian, TruncatedGaussian])',
+             lambda: U.Univariate(candidates=[U.UniformUnivariate, U.GaussianUnivariate, U.TruncatedGaussian]), 6),
+            ('Univariate(parametric=PARAMETRIC, bounded=BOUNDED)', lambda: U.Univariate(parametric=PT.PARAMETRIC, bounded=BT.BOUNDED), 3),
+            ('Univariate(parametric=PARAMETRIC, bounded=UNBOUNDED)', lambda: U.Univariate(parametric=PT.PARAMETRIC, bounded=BT.UNBOUNDED), 2),
+            ('Univariate(parametric=PARAMETRIC)', lambda: U.Univariate(parametric=PT.PARAMETRIC), 1),
+            ('Univariate()', lambda: U.Univariate(), 1)]
+
+
+def oracle_wrapper(ctx, rng, n_random, budget=1):
+    """`w.fit(A); w.fit(B)` vs fresh `w2.fit(B)` for the selecting wrapper, on histories where the WINNING FAMILY
+    changes between fits; every query and to_dict()['type'], bit for bit (same code on the same data)."""
+    found = {}
+    checked = changed_winner = 0
+    for label, mk, cost in wrapper_configs():
+        s = lambda: rng.randrange(1 << 30)  # noqa: E731
+        P = [{'kind': 'uniform', 'a': 20.0, 'b': 30.0, 'n': 60, 'seed': s()},      # 0: uniform wins
+             {'kind': 'normal', 'a': 5.0, 'b': 2.0, 'n': 60, 'seed': s()},         # 1: gaussian-like wins
+             {'kind': 'gamma', 'a': 1.5, 'b': 3.0, 'n': 70, 'seed': s()},          # 2: skewed: gamma-like wins
+             {'kind': 'const', 'a': 3.0, 'n': 30, 'seed': 0},                      # 3
+             {'kind': 'uniform', 'a': -4.0, 'b': 2.0, 'n': 45, 'seed': s()}]       # 4
+        hists = [[0, 1], [3, 1], [1, 2], [1, 3, 0], [1, 0], [2, 4], [3, 0], [0, 2, 1]][:cost * budget] + \
+            [[rng.randrange(len(P)) for _ in range(rng.randint(2, 3))] for _ in range(n_random if cost >= 6 else 0)]
+        for h in hists:
+            descs = [P[i] for i in h]
+            seed0 = rng.randrange(1 << 20)
+            try:
+                w1 = mk()
+                winners = []
+                for j, d in enumerate(descs):
+                    fit_pinned(w1, make_data(d), seed0 + j)
+                    winners.append(type(w1._instance).__name__)
+                w2 = mk()
+                fit_pinned(w2, make_data(descs[-1]), seed0 + len(descs) - 1)
+            except Exception as e:  # noqa
+                ctx.count('wrapper-oracle:skipped-fit-raised:' + type(e).__name__)
+                continue
+            checked += 1
+            fresh_winner = type(w2._instance).__name__
+            moved = len(set(winners[:-1] + [fresh_winner])) > 1
+            changed_winner += moved
+            ctx.case(('wrapper-oracle', label, tuple(h), seed0), nontrivial=moved)
+            ctx.count('wrapper-oracle:' + ('winner-changes' if moved else 'same-winner'))
+            o1, o2 = observe(w1), observe(w2)
+            dd = obs_xdiff(o1, o2)
+            if dd or winners[-1] != fresh_winner:
+                key = K_WSEL if winners[-1] != fresh_winner else 'Univariate.fit:refit-differs-from-fresh'
+                found[key] = found.get(key, 0) + 1
+                ctx.fail_input('copulas.univariate.Univariate.fit', {'wrapper': label, 'history': descs, 'seed0': seed0},
+                               {'differs': dd, 'family_after_each_fit': winners, 'family_of_fresh_fit_on_last': fresh_winner,
+                                'refit': _brief(o1), 'fresh': _brief(o2)},
+                               'a wrapper re-fitted on X is observably identical to a fresh wrapper fitted on X '
+                               '(same selected family, parameters and answers)', key)
+    return found, checked, changed_winner
+
+
 def user_bound_configs():
     """TruncatedGaussian WITH explicit user bounds: zero (int, 0.0, -0.0) on either side, one-sided, two-sided,
     keyword / positional / mixed; `sign` = which side of 0 the data must lie."""
@@ -1712,6 +1778,10 @@ def _run_rest(ctx, lean, flags):
     _phase(ctx, 'check_invalid_large', check_invalid_large, ctx, lean)
     _phase(ctx, 'check_get_instance', check_get_instance, ctx, lean)
     _phase(ctx, 'check_clone_indirect', check_clone_indirect, ctx)
+    r = _phase(ctx, 'oracle_wrapper', oracle_wrapper, ctx, ctx.rng('wrapper-oracle-run'), 1 * ctx.scale, 1 if ctx.scale == 1 else 4)
+    if r is not None:
+        ctx.ob('oracle:refit-wrapper', not r[0] and r[2] >= 8, 'tie',
+               {'findings': r[0], 'histories': r[1], 'histories_where_the_winning_family_changes': r[2]})
     r = _phase(ctx, 'oracle_user_bounds', oracle_user_bounds, ctx, ctx.rng('user-bounds-run'), 1 * ctx.scale)
     if r is not None:
         ctx.ob('oracle:truncated-user-bounds', K_USER not in r[0], 'tie', {'findings': r[0], 'histories': r[1]})
@@ -1730,10 +1800,11 @@ def search(ctx, deep):
     found, n1 = oracle_uni(ctx, rng, 2 * scale, forced=False)
     bad, n2 = oracle_multi(ctx, rng, 1 * scale)
     ub, n4 = oracle_user_bounds(ctx, rng, 1 * scale)
+    wf, n5, n6 = oracle_wrapper(ctx, rng, 1 * scale, 1 if not deep else 4)
     cfg = [(rng.choice(['center', 'direct', 'regular']), rng.choice([4, 5, 6, 7] if deep else [4, 5, 6]), rng.randint(40, 80), 3,
             rng.randrange(1 << 20)) for _ in range(3 * scale)]
     f, n3 = check_uninit(ctx, cfg)
-    ctx.support = {'user_bound_histories': n4, 'user_bound_findings': ub, 'refit_histories': n1, 'refit_findings': found, 'multivariate_pairs': n2, 'vines_poisoned': n3,
+    ctx.support = {'wrapper_histories': n5, 'wrapper_winner_changes': n6, 'wrapper_findings': wf, 'user_bound_histories': n4, 'user_bound_findings': ub, 'refit_histories': n1, 'refit_findings': found, 'multivariate_pairs': n2, 'vines_poisoned': n3,
                    'uninitialised_findings': f, 'deep': deep}
 
 
@@ -1747,6 +1818,9 @@ def replay(ctx, payload):
         import copulas.univariate as U
         cls = getattr(U, inp['class'])
         refit_oracle(ctx, cls, inp.get('ctor_raw', {}), inp['history'], inp['seed0'])
+    elif cls_key == K_WSEL or str(cls_key).startswith('Univariate.fit:'):
+        oracle_wrapper(ctx, ctx.rng('wrapper-oracle-run'), 1)
+        oracle_wrapper(ctx, ctx.rng('search'), 1)
     elif cls_key == K_USER or (cls_key == K_BND and 'args_raw' in inp):
         oracle_user_bounds(ctx, ctx.rng('user-bounds-run'), 1)
         oracle_user_bounds(ctx, ctx.rng('search'), 1)
